@@ -1,12 +1,12 @@
-\* quick tier, part 2: two mutations in one round, one initial tree (S, B(S|))
+\* quick tier, part 2: two mutations in one round, one initial tree (S, B(S|S)), no FST edit (covered by part 1)
 SPECIFICATION Spec
 CONSTANTS
   MaxObj = 24
   MaxPos = 18
   MaxMut = 2
   MaxRounds = 1
-  MaxFst = 1
-  InitShapes <- ShapesOne
+  MaxFst = 0
+  InitShapes <- ShapesTwo
 VIEW View
 CHECK_DEADLOCK FALSE
 INVARIANT MarkNoAlias
